@@ -191,6 +191,9 @@ func (g *GateInst) applyRaw(op string) rawResult {
 		g.Clk.Advance(time.Millisecond)
 	case "expire":
 		g.Clk.Advance(gateExpiration + time.Millisecond)
+	case "half":
+		// 0.6 x Expiration: two of these take a group past its expiry although each gap is shorter than it
+		g.Clk.Advance(gateExpiration * 6 / 10)
 	case "flushall":
 		r.err = g.F.FlushAll(ctx)
 	case "close":
@@ -255,6 +258,8 @@ func (g *GateInst) Apply(op string) (string, string) {
 		accepted = true
 		g.accepted[r.seq] = r.id
 	}
+	// the groups as they stood before this step (composed ones are dropped from g.groups below)
+	atStart := append([]*mGroup(nil), g.groups...)
 	// ---- I1: every composition is exactly one held group, in arrival order, never twice ----
 	ownFlushComposed := false
 	for ci, c := range comps {
@@ -399,7 +404,7 @@ func (g *GateInst) Apply(op string) (string, string) {
 		// emitted oldest first: compositions of this step (other than the own flush) follow opening order
 		last := int64(-1)
 		for _, c := range comps {
-			for _, gr := range before {
+			for _, gr := range atStart {
 				if gr.id == c.ID && seqsEq(gr.seqs, c.Seqs) {
 					if gr.openAt < last {
 						return bad("groups were emitted out of order: %q (opened at %d) after a younger group", gr.id, gr.openAt)
